@@ -352,7 +352,15 @@ func (g *gctx) wellFormed(ready bool) {
 // probe emits a message an unverified peer might try (C13).
 func (g *gctx) probe() {
 	r := g.r
-	switch r.Pick(14, 12, 12, 8, 8, 8, 8, 6, 6, 6, 4, 4, 4) {
+	switch r.Pick(14, 12, 12, 8, 8, 8, 8, 6, 6, 6, 4, 4, 4, 3) {
+	case 13:
+		// a verification reply nobody asked for yet (before the handshake completed the reader ignores
+		// it WITHOUT consuming the payload, so the connection usually ends on the next header read)
+		if !g.hsDone {
+			g.emit(msgOp("headers", headersPayload([]uint32{uint32(goodNonce + r.Intn(100))})))
+		} else {
+			g.emit(msgOp("sendheaders", nil))
+		}
 	case 0:
 		ports := make([]uint16, 1+r.Intn(4))
 		for i := range ports {
